@@ -1,6 +1,7 @@
 CONSTANTS
   PathDot = "orig"
   AnyQuote = "fixed"
+  DefaultVia = "to_url"
   KeyDefaults = "count"
   Alpha = {97, 10}
   MaxText = 2
